@@ -397,6 +397,9 @@ func evaluate(sc *scen.Scenario, p Plan) error {
 	if sc.Resume != nil && sc.Resume.NoHash {
 		cls = append(cls, "session:resumed-stored-without-key-id")
 	}
+	if sc.ServerClockOffset > 0 {
+		cls = append(cls, "server-clock-after-2038")
+	}
 	b, _ := json.Marshal(sc.RPC.Steps)
 	run.Case(verdict != "inconclusive" && nt, evid.Hash(b, p.Fresh), append(cls, "verdict:"+verdict)...)
 	run.Sample(map[string]any{"plan": p})
